@@ -286,6 +286,7 @@ class MacroProgram(ElementProgram):
                     # The static content (used when the expression
                     # evaluates to ``default``) is translated, too.
                     content = nodes.Translate('', content)
+                    translated = True
                 content = self._make_content_node(
                     value, content, key, translate,
                 )
